@@ -1,34 +1,6 @@
 """Known-finding classifiers for C04 (one defect each, recognised by its observable)."""
 import re
 
-_PARAMS = re.compile(r"function\s*\(([^()]*)\)|local\s+\w+\s*\(([^()]*)\)\s*=")
-
-
-def _has_duplicate_params(text):
-    for m in _PARAMS.finditer(text or ""):
-        names = []
-        for part in (m.group(1) or m.group(2) or "").split(","):
-            name = part.split("=")[0].strip()
-            if name:
-                names.append(name)
-        if len(set(names)) != len(names):
-            return True
-    return False
-
-
-def c04_duplicate_parameter_names_panic(op, impl, model, args):
-    """a function literal with two parameters of the same name is accepted; binding its arguments
-    by name then panics at one of three sites (unreachable!() in prepared.rs / parse.rs, the
-    double-bind assertion of ContextBuilder)"""
-    msgs = ("entered unreachable code", "variable bound twice in single context call")
-    if op.get("op") == "bind.prepare":
-        return bool(op.get("dup")) and op.get("impl_r") == "panic" and any(m in (op.get("impl_msg") or "") for m in msgs)
-    if op.get("op") == "total.observe" and op.get("family") in ("tla", "dupparam", "programs", "tokens"):
-        code = (op.get("case") or {}).get("code", "")
-        return impl.get("outcome") == "panic" and any(m in (impl.get("panic") or "") for m in msgs) and _has_duplicate_params(code)
-    return False
-
-
 def c04_deep_syntactic_nesting_overflows_native_stack(op, impl, model, args):
     """source nested/chained `n` levels deep: the recursive-descent parser and the recursive
     evaluator have no depth limit and no stack growth on these paths"""
@@ -37,46 +9,9 @@ def c04_deep_syntactic_nesting_overflows_native_stack(op, impl, model, args):
             and impl.get("outcome") == "crash" and bool(impl.get("stack_overflow")))
 
 
-def c04_recursion_through_field_or_element_not_counted(op, impl, model, args):
-    """runaway recursion whose levels are linked by an object-field or array-element access: no
-    frame is pending across the access, so the frame limit never triggers"""
-    if op.get("op") != "total.observe" or op.get("family") != "unbounded":
-        return False
-    code = (op.get("case") or {}).get("code", "")
-    return "assert" not in code and impl.get("outcome") in ("timeout", "oom")
-
-
-def c04_self_dependent_field_under_assert_hangs(op, impl, model, args):
-    """a field that depends on itself, first read while the object's assertions run: the pending
-    marker is ignored while asserting and the re-evaluation recurses without bound"""
-    if op.get("op") != "total.observe" or op.get("family") != "unbounded":
-        return False
-    code = (op.get("case") or {}).get("code", "")
-    return "assert" in code and impl.get("outcome") in ("timeout", "oom")
-
-
 def c04_float_conversion_of_huge_number_debug_assert(op, impl, model, args):
     """`%f`-family conversion of a number whose scaled value overflows to infinity: the fraction
     becomes NaN and trips render_integer's debug_assert (debug-assertion builds only)"""
     return (op.get("op") == "total.observe" and impl.get("outcome") == "panic"
             and "render_integer receives sign using arg" in (impl.get("panic") or "")
             and "%" in ((op.get("case") or {}).get("code") or ""))
-
-
-def c04_native_recursion_over_self_referential_value(op, impl, model, args):
-    """an infinitely deep lazy value (`local x = [x]`, `{a: $}`) handed to native code that walks
-    values recursively (structural builtins, ordering comparison) without taking frames: the native
-    stack overflows (or, for manifestTomlEx, the walk never ends) instead of a stack-overflow error"""
-    if op.get("op") != "total.observe":
-        return False
-    code = (op.get("case") or {}).get("code") or ""
-    dead = (impl.get("outcome") == "crash" and bool(impl.get("stack_overflow"))) or \
-           (impl.get("outcome") in ("timeout", "oom") and op.get("family") == "cyclic")
-    if not dead:
-        return False
-    names = args.get("fns", [])
-    if op.get("family") == "cyclic":
-        return any(n in (op.get("call") or "") for n in names)
-    # elsewhere: only when the program visibly builds a self-referential value and calls one of them
-    selfref = "$" in code or "self" in code or re.search(r"local (\w+) = [\[{][^;]*\b\1\b", code) is not None
-    return selfref and any(("std." + n) in code for n in names if n.isalpha())
